@@ -61,11 +61,32 @@ def check_table(res, repo):
         # a single excluded name:  name == "candles"
         if isinstance(n, ast.Compare) and len(n.ops) == 1 and isinstance(n.ops[0], ast.Eq) and isinstance(n.comparators[0], ast.Constant) and isinstance(n.comparators[0].value, str) and isinstance(n.left, ast.Name):
             pass
+    from .. import convsem as cs
+
+    def emitted(ci, fields, with_timeframe):
+        """the keys Indicator.settings emits for an instance of ci whose every field holds a value (evaluated; None: undecided)"""
+        it = cs.Interp(repo, "hexital.core.indicator", "Indicator")
+        attrs = {}
+        for f in fields:
+            attrs[f] = cs.Sym(f"value of {f}", "obj")
+        attrs.update({"candles": [], "sub_indicators": {}, "managed_indicators": {}, "_name": ci.name, "timeframe": "T5" if with_timeframe else None,
+                      "candlestick_type": cs.ObjV("a candlestick type", {"minimal_name": "HA"}, "CandlestickType"), "_candles": cs.ObjV("manager", {}, "CandleManager")})
+        selfo = cs.ObjV(f"a {ci.name}", attrs, "Indicator")
+        try:
+            out = it.call_function(it.method("settings"), [], {}, bound_first=selfo)
+        except (cs.Undecided, cs.Raised):
+            return None
+        return set(out) if isinstance(out, dict) else None
+
     for ci in repo.shipped():
         if ci.name == "Amorph":
             continue
         fields = repo.all_fields(ci)
-        bad = [f for f, fi in fields.items() if not f.startswith("_") and f not in skip and not fi.init]
+        keys = [emitted(ci, fields, tf) for tf in (False, True)]
+        if all(k is not None for k in keys):
+            bad = sorted(k for k in (keys[0] | keys[1]) - {"indicator"} if k not in fields or not fields[k].init)
+        else:
+            bad = [f for f, fi in fields.items() if not f.startswith("_") and f not in skip and not fi.init]
         if bad:
             res.fail(rule, finding("C08", rule, ci, ci.node, f"settings would emit {bad}, which __init__ does not accept", construct=f"{ci.name}: non-init public fields {bad}"))
         else:
